@@ -95,19 +95,22 @@ def model_distance(x, y, c, lvalue=True):
     return diff
 
 
+HASHED_INPUT = bytes((i * i * 7 + i * 13 + 5) & 0xff for i in range(300))
+
+
 class TlshDistance(Case):
     prop = 'C19'
     name = 'C19.tlsh_distance'
     timeout_s = 900
     bounds = ('distance(x,y) for ARBITRARY symbolic digests x,y of the 48-bucket configurations (checksum length 1 and 3) and the 128-bucket/1-byte one: equals the scoring model, is >= 0, '
-              'd(x,x)==0, d(x,y)==d(y,x), and object/bytes/mixed arguments agree; lvalue flag both ways')
+              'd(x,x)==0, d(x,y)==d(y,x), and object/bytes/mixed arguments agree - also for a digest object produced by really hashing a (concrete) input against its own bytes, a re-loaded copy and an arbitrary symbolic digest; lvalue flag both ways')
     outside = '256-bucket digests and 128-bucket/3-byte for the distance (same code path, longer body loop)'
 
     def shapes(self, tier):
         for b, c in ((48, 1), (48, 3), (128, 1)) + (((128, 3), (256, 1)) if tier == 'thorough' else ()):
-            for what in ('model', 'self', 'sym', 'forms'):
+            for what in ('model', 'self', 'sym', 'forms', 'hashed'):
                 for lv in (True, False):
-                    if what in ('self', 'forms') and not lv:
+                    if what in ('self', 'forms', 'hashed') and not lv:
                         continue
                     yield dict(buckets=b, chk=c, what=what, lv=lv)
 
@@ -125,6 +128,13 @@ class TlshDistance(Case):
             return distance(x, x)
         if w == 'sym':
             return [distance(x, y, lv), distance(y, x, lv)]
+        if w == 'hashed':
+            # a digest object produced by actually hashing (its fields are what update()/final() leave behind, e.g. bytearrays)
+            H = TLSH(shape['buckets'], chklen=shape['chk'])
+            H(HASHED_INPUT, True)
+            code = H.lsh_code
+            return [distance(H, code), distance(code, H), distance(H, TLSH(shape['buckets'], chklen=shape['chk']).from_hash(code)),
+                    distance(H, y), distance(y, H)]
         ox = TLSH(shape['buckets'], chklen=shape['chk']).from_hash(x)
         oy = TLSH(shape['buckets'], chklen=shape['chk']).from_hash(y)
         return [distance(ox, oy), distance(ox, y), distance(x, oy), ox.distance_to(oy)]
@@ -139,6 +149,12 @@ class TlshDistance(Case):
             return 0
         if w == 'sym':
             return [d, d]
+        if w == 'hashed':
+            from crysp.tlsh import TLSH
+            H = TLSH(shape['buckets'], chklen=c)
+            H(HASHED_INPUT, True)
+            code = list(H.lsh_code)
+            return [0, 0, 0, model_distance(code, y, c, lv), model_distance(y, code, c, lv)]
         return [d, d, d, d]
 
 
